@@ -284,10 +284,12 @@ func init() {
 		return x
 	}
 	reg("(*sync.Map).Store", func(e *Engine, args []Value, fn *ssa.Function) Value {
+		e.yield()
 		e.mapUpdate(smap(e, args[0].(Ptr).Obj), args[1], args[2])
 		return nil
 	})
 	reg("(*sync.Map).Load", func(e *Engine, args []Value, fn *ssa.Function) Value {
+		e.yield()
 		m := smap(e, args[0].(Ptr).Obj)
 		i := e.mapFind(m, args[1])
 		if i < 0 {
@@ -296,6 +298,7 @@ func init() {
 		return Tuple{m.Vals[i], e.ctx.True}
 	})
 	reg("(*sync.Map).LoadOrStore", func(e *Engine, args []Value, fn *ssa.Function) Value {
+		e.yield()
 		m := smap(e, args[0].(Ptr).Obj)
 		i := e.mapFind(m, args[1])
 		if i < 0 {
